@@ -107,6 +107,29 @@ pub fn catch<R>(f: impl FnOnce() -> R) -> Result<R, String> {
 pub fn normalize_message(msg: &str) -> String {
     let mut out = String::with_capacity(msg.len());
     let mut in_digits = false;
+    // text quoted in backticks is data (file contents, identifiers): fold it, unless it
+    // is the fixed wording of a std message such as `Option::unwrap()`
+    let mut folded = String::with_capacity(msg.len());
+    let mut parts = msg.split('`');
+    if let Some(first) = parts.next() {
+        folded.push_str(first);
+    }
+    let mut inside = true;
+    for p in parts {
+        if inside {
+            if p.contains("::") || p.contains("()") {
+                folded.push('`');
+                folded.push_str(p);
+                folded.push('`');
+            } else {
+                folded.push_str("`_`");
+            }
+        } else {
+            folded.push_str(p);
+        }
+        inside = !inside;
+    }
+    let msg = folded.replace(|c: char| !c.is_ascii(), "?");
     for c in msg.chars() {
         if c.is_ascii_digit() {
             if !in_digits {
